@@ -130,6 +130,11 @@ def linear_extension(draw, n, po):
     return out
 
 
+# column defaults: none, literals, a signed number, an arithmetic expression, function calls, CURRENT_TIMESTAMP
+DEFAULTS = [None, None, ["raw", 5], ["raw", "x"], ["raw", -1], ["add", ["vw", ["raw", 1]], ["raw", 2]], ["fn", "Upper", [["raw", "x"]]], ["fn", "CurTimestamp", []],
+            ["neg", ["vw", ["raw", 3]]], ["fn", "Coalesce", [["raw", None], ["raw", 0]]]]
+
+
 @st.composite
 def ddl_program(draw):
     cls = draw(st.sampled_from(CTXS))
@@ -141,7 +146,7 @@ def ddl_program(draw):
         steps.append(["as_select", [["q", {"cls": "inherit", "sources": {}, "steps": [["from_", [["src", "T"]]], ["select", [["col", "T", "a"]]]]}]]])
     else:
         for i in range(draw(st.integers(1, 3))):
-            steps.append(["columns", [draw(st.sampled_from([["py", "c%d" % i], ["pytuple", [["py", "c%d" % i], ["py", "INT"]]], ["column", "c%d" % i, "INT", draw(st.sampled_from([None, True, False])), None]]))]])
+            steps.append(["columns", [draw(st.sampled_from([["py", "c%d" % i], ["pytuple", [["py", "c%d" % i], ["py", "INT"]]], ["column", "c%d" % i, "INT", draw(st.sampled_from([None, True, False])), draw(st.sampled_from(DEFAULTS))]]))]])
         if draw(st.booleans()):
             steps.append(["unique", [["py", "c0"]]])
         if draw(st.booleans()):
